@@ -66,6 +66,7 @@ type Spec struct {
 	Units       []UnitSpec `json:"units"`
 	Assumptions []string   `json:"assumptions"`
 	Outside     string     `json:"outside"`
+	Cgo         bool       `json:"cgo"` // load /repo with CGO_ENABLED=1
 }
 
 type knownFinding struct {
@@ -426,6 +427,7 @@ func cmdCheck(args []string) int {
 			ov[filepath.Join(pkgDir(u.Package), fmt.Sprintf("zz_verif_h%d.go", len(seenHarness)))] = b
 		}
 	}
+	loadWithCgo = spec.Cgo
 	ld, err := loadProgram(patterns, ov)
 	known := loadKnownFindings()
 	var evEntries []evidenceEntry
